@@ -132,8 +132,8 @@ def run_case(c):
             # per-channel lists of scale and nbins, channel forms, and the unknown scale
             combos = [(['linear', 'log', 'logicle'], [None, 7, 100]), (['log', 'log', 'linear'], [2, None, 1]),
                       (['logicle', 'linear', 'log'], [100, 2, None])]
-            for chans in ([0, 1, 2], ['CH3', 'CH1', 'CH2'], [2, 'CH1'], None):
-                idx = [0, 1, 2] if chans is None else [ch if isinstance(ch, int) else names.index(ch) for ch in chans]
+            for chans in ([0, 1, 2], ['CH3', 'CH1', 'CH2'], [2, 'CH1'], None, (0, 1, 2), ('CH2', 0), [-1, -3], (2,), ['CH2']):
+                idx = [0, 1, 2] if chans is None else [ch % 3 if isinstance(ch, int) else names.index(ch) for ch in chans]
                 for scl, nb in combos:
                     scl_, nb_ = scl[:len(idx)], nb[:len(idx)]
                     what = 'hist_bins(%s %r, channels=%r, nbins=%r, scale=%r)' % (st, rs, chans, nb_, scl_)
@@ -147,8 +147,13 @@ def run_case(c):
                         continue
                     ok = True
                     for k, j in enumerate(idx):
-                        single = d.hist_bins(j, nb_[k], scl_[k])
-                        byname = d.hist_bins(names[j], nb_[k], scl_[k])
+                        try:
+                            single = d.hist_bins(j, nb_[k], scl_[k])
+                            byname = d.hist_bins(names[j], nb_[k], scl_[k])
+                        except Exception as e:
+                            res.violation('lists:single-raises:%s' % type(e).__name__, 'hist_bins(%s, channel %d, nbins=%r, scale=%r) raised %s: %s' % (st, j, nb_[k], scl_[k], type(e).__name__, e), one)
+                            ok = False
+                            break
                         if not (np.array_equal(np.asarray(got[k]), np.asarray(single)) and np.array_equal(np.asarray(single), np.asarray(byname))):
                             res.violation('lists:per-channel', '%s: element %d differs from the single-channel answer for channel %d' % (what, k, j), one)
                             ok = False
@@ -158,8 +163,13 @@ def run_case(c):
                 # scalar scale / nbins broadcast over a channel list
                 for sc1 in ('linear', 'log', 'logicle'):
                     for nb1 in (None, 7):
-                        got = d.hist_bins(chans, nb1, sc1)
-                        ok = all(np.array_equal(np.asarray(got[k]), np.asarray(d.hist_bins(j, nb1, sc1))) for k, j in enumerate(idx))
+                        try:
+                            got = d.hist_bins(chans, nb1, sc1)
+                            ok = isinstance(got, list) and len(got) == len(idx) and \
+                                all(np.array_equal(np.asarray(got[k]), np.asarray(d.hist_bins(j, nb1, sc1))) for k, j in enumerate(idx))
+                        except Exception as e:
+                            res.violation('lists:broadcast-raises:%s' % type(e).__name__, 'hist_bins(%s, channels=%r, nbins=%r, scale=%r) raised %s: %s' % (st, chans, nb1, sc1, type(e).__name__, e), one)
+                            continue
                         if not ok:
                             res.violation('lists:broadcast', 'hist_bins(%s, channels=%r, nbins=%r, scale=%r) differs from the per-channel answers' % (st, chans, nb1, sc1), one)
                         else:
